@@ -1190,23 +1190,40 @@ func FuzzC17(f *testing.F) {
 	f.Add(uint16(2049), uint8(0), uint16(20), uint8(1), uint8(1), uint16(70), uint8(0xff))
 	f.Add(uint16(1), uint8(2), uint16(23), uint8(4), uint8(0), uint16(0), uint8(0))
 	f.Add(uint16(4096), uint8(1), uint16(15+8+3), uint8(0x10), uint8(2), uint16(15+48), uint8(1))
-	env := &ev.Env{Property: "C17", Tier: "thorough", TmpRoot: f.TempDir()}
+	// one store for the whole campaign (opening a database per input would dominate the run time)
+	dir := f.TempDir()
+	ctx := context.Background()
+	db, err := stacks.OpenDB(dir)
+	if err != nil {
+		f.Fatal(err)
+	}
+	f.Cleanup(func() { db.Close() })
+	b := stacks.NewBuilder(dir, db, stacks.Options{})
+	ps, err := b.Build("ec2+1>mem", "default")
+	if err != nil {
+		f.Fatal(err)
+	}
+	if err := ps.Start(ctx); err != nil {
+		f.Fatal(err)
+	}
+	f.Cleanup(func() { ps.Stop(ctx) })
+	env := &ev.Env{Property: "C17", Tier: "thorough"}
 	f.Fuzz(func(t *testing.T, size uint16, s1 uint8, off1 uint16, x1 uint8, s2 uint8, off2 uint16, x2 uint8) {
 		n := int(size) % 6200
-		body := gen.BodySpec{Kind: "rand", Len: n, Seed: 5}
-		c := Case{D: 2, P: 1, Base: "mem", Body: body, Stale: gen.BodySpec{Kind: "rand", Len: n, Seed: 6}, Foreign: gen.BodySpec{Kind: "rand", Len: n, Seed: 7}}
+		c := Case{D: 2, P: 1, Base: "mem", Body: gen.BodySpec{Kind: "rand", Len: n, Seed: 5}}
 		var fs []Fault
 		add := func(s uint8, off uint16, x uint8) {
-			if x == 0 {
-				return
+			if x != 0 {
+				fs = append(fs, Fault{Shard: int(s), Kind: "rawxor", Off: int(off), Bit: int(x)})
 			}
-			// byte-level xor expressed as up to 8 single-bit flips is not expressible in one Fault; use raw mode
-			fs = append(fs, Fault{Shard: int(s), Kind: "rawxor", Off: int(off), Bit: int(x)})
 		}
 		add(s1, off1, x1)
 		add(s2, off2, x2)
 		c.Sets = []Set{{Faults: fs, Mode: "nil"}}
-		if o := runRaw(env, c); o.Violation != "" {
+		var o ev.Outcome
+		r := &runner{ctx: ctx, env: env, o: &o, c: c, db: db, ps: ps, io: &shardIO{b: b, base: "mem", n: 3}}
+		runRaw(r)
+		if o.Violation != "" {
 			t.Fatal(o.Violation)
 		}
 	})
@@ -1239,34 +1256,13 @@ func knownOpen(matcher string) bool {
 	return false
 }
 
-// runRaw is run() for the fuzz target: "rawxor" faults xor one byte at an absolute offset.
-func runRaw(env *ev.Env, c Case) (o ev.Outcome) {
-	dir := env.TempDir()
-	defer os.RemoveAll(dir)
-	ctx := context.Background()
-	db, err := stacks.OpenDB(dir)
-	if err != nil {
-		o.Failf("open db: %v", err)
-		return
-	}
-	defer db.Close()
-	b := stacks.NewBuilder(dir, db, stacks.Options{})
-	ps, err := b.Build(fmt.Sprintf("ec%d+%d>mem", c.D, c.P), "default")
-	if err != nil {
-		o.Failf("build: %v", err)
-		return
-	}
-	defer b.Release()
-	if err := ps.Start(ctx); err != nil {
-		o.Failf("start: %v", err)
-		return
-	}
-	defer ps.Stop(ctx)
+// runRaw is the fuzz target's run(): "rawxor" faults xor one byte at an absolute offset of a shard.
+func runRaw(r *runner) {
+	o, c := r.o, r.c
 	total := c.D + c.P
-	r := &runner{ctx: ctx, env: env, o: &o, c: c, db: db, ps: ps, io: &shardIO{b: b, base: "mem", n: total}}
 	want := c.Body.Bytes()
 	id := pid(0)
-	if err := r.put(id, want); err != nil {
+	if err := r.ps.PutPart(r.ctx, nil, id, bytes.NewReader(want)); err != nil {
 		o.Failf("PutPart: %v", err)
 		return
 	}
@@ -1308,23 +1304,26 @@ func runRaw(env *ev.Env, c Case) (o ev.Outcome) {
 	// D15 / KF-C17-1: a changed dataBytes field explains the result
 	td := trustingDecode(c.D, c.P, r.io.all(id))
 	if res.err == nil && !td.err && bytes.Equal(td.out, res.data) {
+		// undo only the dataBytes fields of the tampered shards: if a decoder that trusts consistent
+		// shards then meets the expectation, the changed dataBytes value is what explains the result
 		und := r.io.all(id)
-		onlyDB := true
+		changedDB := false
 		for i := range touched {
 			raw := append([]byte(nil), und[i]...)
 			for _, off := range frameOffsets(orig[i]) {
-				if off+12 <= len(raw) {
+				if off+12 <= len(raw) && !bytes.Equal(raw[off+8:off+12], orig[i][off+8:off+12]) {
 					copy(raw[off+8:off+12], orig[i][off+8:off+12])
+					changedDB = true
 				}
 			}
-			if !bytes.Equal(raw, orig[i]) {
-				onlyDB = false
-			}
+			und[i] = raw
 		}
-		if onlyDB && knownOpen("c17.frameDataBytesTrusted") {
-			return // known finding KF-C17-1 (frame-header dataBytes trusted)
+		if changedDB && knownOpen("c17.frameDataBytesTrusted") {
+			t := trustingDecode(c.D, c.P, und)
+			if (!t.err && bytes.Equal(t.out, want)) || (len(touched) > c.P && t.err) {
+				return // known finding KF-C17-1 (frame-header dataBytes trusted)
+			}
 		}
 	}
 	o.Failf("fuzz: d=%d p=%d body=%d bytes, %d tampered shards: got %d bytes err=%v", c.D, c.P, len(want), len(touched), len(res.data), res.err)
-	return
 }
